@@ -1,12 +1,32 @@
 (* Properties/C01.v — PBF scan yields exactly the encoded header and elements, field for field.
-   (work in progress: statements are added as the proofs of Pbf/Proofs*.v land) *)
+
+   ONLY statements, each closed by [exact] of a lemma of Pbf/Proofs*.v, and Print Assumptions.
+   The model (Pbf/Model.v, Pbf/Header.v) is a hand transcription of /repo/osmpbf/decode_data.go
+   and decodeOSMHeader at message-tree level, tied to the implementation by correspondence
+   (harness/cmd/c01); the specification (Pbf/Spec.v: elements, encode_block, valid_block) is
+   written from osmformat.proto. *)
 From Coq Require Import ZArith List Bool.
-From Verif Require Import Base.Int64 Pbf.Tree Pbf.Model Pbf.Spec Pbf.ProofsArith.
+From Verif Require Import Base.Int64 Pbf.Tree Pbf.Model Pbf.Spec Pbf.ProofsArith Pbf.ProofsIndep.
 Import ListNotations.
 Open Scope Z_scope.
 
-(* the wrapping delta coding of ids/coordinates/timestamps is lossless for every previous value *)
+(* 1. "An optional column or field that is absent in one block ... never inherits a value from an
+      earlier block": for EVERY message tree (valid encoding or not), every configuration and
+      every two incoming decoder states (whatever earlier blocks left in the cached iterators,
+      string table and block parameters), the outcome of decoding the block — the objects, or the
+      error class, or the panic — is the same.  Unbounded: no two-block test, any history. *)
+Theorem C01_never_inherits : forall c st1 st2 m, scan_result c st1 m = scan_result c st2 m.
+Proof. exact scan_result_state_independent. Qed.
+Print Assumptions C01_never_inherits.
+
+(* 2. the wrapping delta coding of ids, coordinates, timestamps, changesets, member refs is
+      lossless for every previous value (so no range condition on the deltas is needed) *)
 Theorem C01_delta_lossless : forall prev x, in_int64 x ->
   wrap64 (prev + sint64 (zig64 (wrap64 (x - prev)))) = x.
 Proof. exact delta64_roundtrip. Qed.
 Print Assumptions C01_delta_lossless.
+
+Theorem C01_delta32_lossless : forall prev x, - two31 <= x < two31 ->
+  wrap32 (prev + sint32 (zig64 (wrap32 (x - prev)))) = x.
+Proof. exact delta32_roundtrip. Qed.
+Print Assumptions C01_delta32_lossless.
